@@ -630,7 +630,7 @@ def par_check(run, method_filter, n):
             total[k] += info[k]
         # R: k threads versus one thread (the property observed directly)
         for r in read_ndjson(cmp_path):
-            key = canon({k: r.get(k) for k in ("game", "method", "k", "T")})
+            key = canon({k: r.get(k) for k in ("game", "method", "k", "T", "r")})
             if r["status"] == "ok":
                 run.evaluated(key, r.get("nontrivial", False))
             else:
@@ -660,7 +660,8 @@ def check_C06(run, replay):
                 "NoLostStrategyUpdate, NoDeadlock, termination under fairness; traces: solve(Full, T=4 (1,2,3,4,10 thorough), k in "
                 "{2,3,4,8,16(,5,6,12)}, presets) on shape games, seeded games and U-zoo (kuhn, infoset shared by 16 nodes, "
                 "chain of depth 8) with generic payoffs: every pass (frontier, tasks, nodes entered, cache hits) validated "
-                "against Trace_Par.tla and the result compared with one thread at 1e-9; non-trivial = the frontier cut "
+                "against Trace_Par.tla and the result compared with one thread at 1e-9; thresholded runs (budget 12 / 30, thresholds "
+                "midway between consecutive distinct per-player bounds) stop after the same iteration as one thread; non-trivial = the frontier cut "
                 "produced tasks below the root; distinct by (game, method, k, T)")
     run.assumptions = ["schedules of the real thread pool are sampled (repetitions, injected yields in thorough), the "
                        "exhaustive argument over shapes lives in the model", "generic payoffs avoid exact ties (DESIGN 3.4)"]
@@ -684,7 +685,9 @@ def check_C07(run, replay):
                 "sampled tree, NoStaleTask, TasksDisjoint, NoLockConflict; traces: solve({Sampled,External}, ...) as C06 with "
                 "the draws pinned to a pure function of (site, infoset, pass): every pass validated against Trace_Par.tla "
                 "(at most one draw per infoset and pass and only at allowed sites, frontier, exactly-once visits of the "
-                "sampled tree, all lock attempts succeed) and compared with one thread at 1e-9")
+                "sampled tree, all lock attempts succeed) and compared with one thread at 1e-9; plus thresholded runs (budget 12 / 30, "
+                "thresholds midway between consecutive distinct per-player bounds of the one-thread run): same number of "
+                "iterations, strategies and bounds as one thread")
     run.assumptions = ["draws pinned through the hook (a pure function of site, infoset and pass)", "as C06"]
     res = tlc("MC_Par", cfg="MC_Par_External_TRUE" if run.tier == "quick" else "MC_Par_External_TRUE_thorough", timeout=6000, xmx="16g")
     run.add_tlc(res)
